@@ -149,7 +149,7 @@ func startWorker() (*workerProc, error) {
 	return &workerProc{cmd: cmd, in: in, out: bufio.NewReaderSize(op, 1<<20)}, nil
 }
 
-// readLine waits for one answer line; a worker that stays silent for 60 s is stuck in a loop
+// readLine waits for one answer line; a worker that stays silent for 5 min is stuck in a loop
 func (w *workerProc) readLine() (string, error) {
 	type res struct {
 		s   string
@@ -163,7 +163,7 @@ func (w *workerProc) readLine() (string, error) {
 	select {
 	case r := <-ch:
 		return r.s, r.err
-	case <-time.After(3 * hangAfter):
+	case <-time.After(15 * hangAfter):
 		_ = w.cmd.Process.Kill()
 		r := <-ch
 		_ = r
@@ -306,22 +306,22 @@ func writeFiles(dir string, files map[string]string) error {
 func runBinary(bin, dir string, args []string) obs {
 	o := runBinaryT(bin, dir, args, hangAfter)
 	if o.Hang {
-		// the machine may be busy: a run counts as a hang only if it also exceeds 6x the bound when run
-		// again; after three confirmed hangs further time-outs are taken at face value
-		mu.Lock()
-		confirmed := hangsConfirmed
-		mu.Unlock()
-		if confirmed < 3 {
-			o = runBinaryT(bin, dir, args, 6*hangAfter)
+		// The machine may be busy (a Go stack overflow has to touch 1 GB first): a run counts as a hang
+		// only if, run again with nothing else of ours running, it also exceeds 15x the bound.
+		// After three confirmed hangs further time-outs are taken at face value.
+		retryMu.Lock()
+		defer retryMu.Unlock()
+		if hangsConfirmed < 3 {
+			o = runBinaryT(bin, dir, args, 15*hangAfter)
 			if o.Hang {
-				mu.Lock()
 				hangsConfirmed++
-				mu.Unlock()
 			}
 		}
 	}
 	return o
 }
+
+var retryMu sync.Mutex
 
 func runBinaryT(bin, dir string, args []string, limit time.Duration) obs {
 	os.RemoveAll(filepath.Join(dir, "out"))
